@@ -100,7 +100,7 @@ type Runner struct {
 type request struct {
 	U string `json:"u"`
 	E int    `json:"e"`
-	S string `json:"s"`
+	S []byte `json:"s"` // base64 in JSON: inputs are arbitrary byte strings
 	A string `json:"a"`
 }
 
@@ -128,7 +128,7 @@ var units = map[string]func(int, string, string) string{
 type request struct {
 	U string ` + "`json:\"u\"`" + `
 	E int    ` + "`json:\"e\"`" + `
-	S string ` + "`json:\"s\"`" + `
+	S []byte ` + "`json:\"s\"`" + `
 	A string ` + "`json:\"a\"`" + `
 }
 
@@ -151,7 +151,7 @@ func call(r request) (resp response) {
 	if f == nil {
 		return response{Panic: "unknown unit " + r.U}
 	}
-	return response{Out: f(r.E, r.S, r.A)}
+	return response{Out: f(r.E, string(r.S), r.A)}
 }
 
 func main() {
@@ -361,7 +361,7 @@ func (r *Runner) Run(unit string, entry int, src, arg string) (out string, panic
 			return "", "", err
 		}
 	}
-	data, _ := json.Marshal(request{unit, entry, src, arg})
+	data, _ := json.Marshal(request{unit, entry, []byte(src), arg})
 	type result struct {
 		line []byte
 		err  error
